@@ -72,15 +72,29 @@ func askCompare(res *lib.Result, drv *lib.Driver, w *World, sc *Scenario, mode s
 	return compare(res, outs, w, sc, mode)
 }
 
+var (
+	reportedMu sync.Mutex
+	reported   = map[string]bool{}
+)
+
+// report turns the oracle's findings of one history into violations; the first history per
+// signature is shrunk (greedy removal of events while it stays admissible and still violates).
 func report(res *lib.Result, w *World, sc *Scenario, mode string) {
 	for _, v := range w.Viols {
+		reportedMu.Lock()
+		seen := reported[v.Sig]
+		reported[v.Sig] = true
+		reportedMu.Unlock()
+		if seen {
+			continue
+		}
 		cut := *sc
 		if v.At+1 <= len(sc.Events) {
 			cut.Events = sc.Events[:v.At+1]
 		}
 		small := &cut
 		if len(cut.Events) <= 1500 {
-			small = shrink(&cut, v.Sig, 3000)
+			small = shrink(&cut, v.Sig, 1500)
 		}
 		res.Violate(lib.Violation{Sig: v.Sig, What: v.What, Replay: replayBody{Mode: mode, Scenario: small}})
 	}
